@@ -98,6 +98,14 @@ func (l *listener) AcceptWithContext(ctx context.Context) (net.Conn, error) {
 		if err := l.connect(l.closeCtx); err != nil {
 			return nil, fmt.Errorf("connect: %w", err)
 		}
+
+		// The listener may have been closed while reconnecting (cancelling
+		// closeCtx doesn't interrupt the handshake), in which case the new
+		// connection must not be left open.
+		if l.closeCtx.Err() != nil {
+			_ = l.sess.Close()
+			return nil, ErrClosed
+		}
 	}
 }
 
